@@ -119,6 +119,7 @@ type pkgInfo struct {
 	order   []string
 	hand    map[string]bool // struct declared in a file without the "Code generated" header
 	consts  map[string]ast.Expr // package-level constants with a literal value
+	strs    map[string]string   // package-level string constants
 }
 
 func scalarWidth(t string) int {
@@ -152,7 +153,7 @@ func typeStr(e ast.Expr) string {
 }
 
 func loadPkg(root, short, dir string) *pkgInfo {
-	pi := &pkgInfo{short: short, structs: map[string]*ast.StructType{}, methods: map[string]map[string]*ast.FuncDecl{}, funcs: map[string]*ast.FuncDecl{}, hand: map[string]bool{}, consts: map[string]ast.Expr{}}
+	pi := &pkgInfo{short: short, structs: map[string]*ast.StructType{}, methods: map[string]map[string]*ast.FuncDecl{}, funcs: map[string]*ast.FuncDecl{}, hand: map[string]bool{}, consts: map[string]ast.Expr{}, strs: map[string]string{}}
 	files, _ := filepath.Glob(filepath.Join(root, dir, "*.go"))
 	sort.Strings(files)
 	for _, f := range files {
@@ -179,6 +180,11 @@ func loadPkg(root, short, dir string) *pkgInfo {
 							for k, n := range vs.Names {
 								if _, ok := intLit(vs.Values[k]); ok {
 									pi.consts[n.Name] = vs.Values[k]
+								}
+								if bl, ok := vs.Values[k].(*ast.BasicLit); ok && bl.Kind == token.STRING {
+									if v, err := strconv.Unquote(bl.Value); err == nil {
+										pi.strs[n.Name] = v
+									}
 								}
 							}
 						}
@@ -216,8 +222,30 @@ func loadPkg(root, short, dir string) *pkgInfo {
 
 // ---- literal evaluation -------------------------------------------------------------------------
 
+// constants of the package being translated (integer and string valued)
+var curConsts = map[string]ast.Expr{}
+var curStrConsts = map[string]string{}
+
+func strLit(e ast.Expr) (string, bool) {
+	switch l := e.(type) {
+	case *ast.BasicLit:
+		if l.Kind == token.STRING {
+			v, err := strconv.Unquote(l.Value)
+			return v, err == nil
+		}
+	case *ast.Ident:
+		v, ok := curStrConsts[l.Name]
+		return v, ok
+	}
+	return "", false
+}
+
 func intLit(e ast.Expr) (int, bool) {
 	switch l := e.(type) {
+	case *ast.Ident:
+		if c, ok := curConsts[l.Name]; ok {
+			return intLit(c)
+		}
 	case *ast.BasicLit:
 		switch l.Kind {
 		case token.INT:
@@ -1091,11 +1119,10 @@ func (c *ctx) frameEncode(fd *ast.FuncDecl) (*Frame, string) {
 			as := is.Init.(*ast.AssignStmt)
 			gc := as.Rhs[0].(*ast.CallExpr)
 			svcVar := as.Lhs[0].(*ast.Ident).Name
-			lit, ok := gc.Args[0].(*ast.BasicLit)
-			if !ok || lit.Kind != token.STRING || src(is.Cond) != "ok" || len(is.Body.List) != 1 || is.Else != nil {
+			alg, ok := strLit(gc.Args[0])
+			if !ok || src(is.Cond) != "ok" || len(is.Body.List) != 1 || is.Else != nil {
 				return fail("checksum block", stmts[i])
 			}
-			alg, _ := strconv.Unquote(lit.Value)
 			if i+1 >= len(stmts) {
 				return fail("checksum trailer missing", nil)
 			}
@@ -1226,6 +1253,7 @@ func (pi *pkgInfo) tables(sc *Schema, tyID func(pkg, name string) (int, bool)) {
 	// lookup functions: func NewX(key K) (codec.BinaryCodec, error) { if factory, ok := CACHE[key]; ok {...} }
 	type lk struct{ name, cache, kind, kt string }
 	var lks []lk
+	curConsts, curStrConsts = pi.consts, pi.strs
 	for name, fd := range pi.funcs {
 		if fd.Type.Params == nil || len(fd.Type.Params.List) != 1 || fd.Type.Results == nil || len(fd.Type.Results.List) != 2 {
 			continue
@@ -1299,11 +1327,10 @@ func (pi *pkgInfo) tables(sc *Schema, tyID func(pkg, name string) (int, bool)) {
 						key = strconv.Itoa(v)
 					}
 				} else {
-					bl, ok := ce.Args[0].(*ast.BasicLit)
-					if !ok || bl.Kind != token.STRING {
+					sv, ok := strLit(ce.Args[0])
+					if !ok {
 						key = "?" + src(ce.Args[0])
 					} else {
-						sv, _ := strconv.Unquote(bl.Value)
 						key = fmt.Sprintf("%x", sv)
 						if key == "" {
 							key = "-"
@@ -1469,6 +1496,7 @@ func main() {
 			}
 			return "_"
 		}
+		curConsts, curStrConsts = pi.consts, pi.strs
 		pi.normaliseMethod(t.Name, dec, 0)
 		pi.normaliseMethod(t.Name, enc, 0)
 		c.recv = recvName(dec)
